@@ -395,6 +395,9 @@ func (s *Scheduler) WaitUntil(what string, cond func() bool) {
 	s.point(pkWait, nil, cond, what)
 }
 
+// Note adds a line to the execution log (trace mode).
+func (s *Scheduler) Note(what string) { s.logf("%s", what) }
+
 // OpDone marks the end of a top-level operation of the running thread.
 func (s *Scheduler) OpDone() {
 	t := s.cur()
@@ -419,6 +422,13 @@ func (s *Scheduler) Tick() int { s.step++; return s.step }
 // the memory at addr.
 func (s *Scheduler) Access(addr uintptr, write bool, name string) {
 	t := s.cur()
+	if s.KeepLog {
+		k := "R"
+		if write {
+			k = "W"
+		}
+		s.logf("T%d access %s %s", t.id, k, name)
+	}
 	a := s.acc[addr]
 	if a == nil {
 		a = &accState{wT: -1, reads: make([]int, len(s.threads)), name: name}
